@@ -10,12 +10,12 @@ func plans() map[string]Plan {
 	p["C01"] = Plan{Prop: "C01",
 		Quick:    []Job{{Name: "stepspace", Engine: "e1"}},
 		Thorough: []Job{{Name: "stepspace", Engine: "e1"}},
-		QuickCap: 480, ThoroughCap: 3000,
+		QuickCap: 480, ThoroughCap: 5400,
 		Assumptions: baseAssumptions}
 	p["C11"] = Plan{Prop: "C11",
 		Quick:    []Job{{Name: "stepspace", Engine: "e1"}},
 		Thorough: []Job{{Name: "stepspace", Engine: "e1"}},
-		QuickCap: 480, ThoroughCap: 3000,
+		QuickCap: 480, ThoroughCap: 5400,
 		Assumptions: baseAssumptions}
 	p["C02"] = Plan{Prop: "C02",
 		Quick:    []Job{{Name: "battles", Engine: "e2"}},
@@ -30,12 +30,12 @@ func plans() map[string]Plan {
 	p["C04"] = Plan{Prop: "C04",
 		Quick:    []Job{{Name: "stepspace", Engine: "e1"}, {Name: "battles", Engine: "e2"}},
 		Thorough: []Job{{Name: "stepspace", Engine: "e1"}, {Name: "battles", Engine: "e2"}},
-		QuickCap: 480, ThoroughCap: 3000,
+		QuickCap: 480, ThoroughCap: 5400,
 		Assumptions: baseAssumptions}
 	p["C15"] = Plan{Prop: "C15",
 		Quick:    []Job{{Name: "stepspace", Engine: "e1"}, {Name: "battles", Engine: "e2"}},
 		Thorough: []Job{{Name: "stepspace", Engine: "e1"}, {Name: "battles", Engine: "e2"}},
-		QuickCap: 480, ThoroughCap: 3000,
+		QuickCap: 480, ThoroughCap: 5400,
 		Assumptions: baseAssumptions}
 	p["C07"] = Plan{Prop: "C07",
 		Quick:    []Job{{Name: "expressions", Engine: "e4"}},
